@@ -29,7 +29,12 @@ func (d Doc) Clone() Doc {
 }
 
 func (d Doc) String() string {
-	return fmt.Sprintf("keys=%v svcs=%v aka=%v note=%q", d.Keys, d.Svcs, d.AKA, d.Note)
+	note := d.Note
+	if len(note) > 24 {
+		note = fmt.Sprintf("%s…(%d chars)", note[:8], len(note))
+	}
+
+	return fmt.Sprintf("keys=%v svcs=%v aka=%v note=%q", d.Keys, d.Svcs, d.AKA, note)
 }
 
 func upsert(list []Entry, id, mark string) []Entry {
